@@ -156,7 +156,7 @@ def run_case(case):
     if case.get("qualify") and b"0x" in r["out"] + e["out"]:
         ro, eo = pipeline.norm_out(r["out"]), pipeline.norm_out(e["out"])
     else:
-        ro, eo = r["out"], e["out"]
+        ro, eo = pipeline.norm_world(r["out"]), pipeline.norm_world(e["out"])
     if pipeline.exit_class(r["rc"]) != pipeline.exit_class(e["rc"]):
         return fail("exit-differs", "`run` exit %d but `execute` exit %d" % (r["rc"], e["rc"]))
     if ro != eo:
